@@ -58,6 +58,19 @@ func checkC03(c *Ctx) {
 	}
 	e7Loops(c, "C03-K2", funcs)
 	fmtSelfRecursion(c, "C03-K2")
+	// termination of the index-driven label decoder rests on its jump discipline (jumps do not nest, the saved position
+	// lies ahead, accumulators capped): the ledger entry for that loop is backed by the cursor rules of C09-K1, evaluated here
+	nJ := 0
+	for _, f := range funcs {
+		if inUio(f) {
+			continue
+		}
+		for _, hdr := range loopHeaders(f) {
+			nJ += c09Cursor(c, e, f, hdr, sccOf(hdr))
+		}
+	}
+	r.Count("C03-K2-cursor-jump-sites", nJ)
+	r.Expect("C03-K2-cursor-jump-sites", 1)
 	// sizes, indices and shifts computed in int must not depend on int being 64 bits wide (negative sizes on GOARCH=386/arm)
 	platformWidthRule(c, "C03-K3", []string{"dhcpv4", "dhcpv6", "iana", "rfc1035label", "dhcpv4/nclient4", "dhcpv6/nclient6", "dhcpv4/server4", "dhcpv6/server6", "dhcpv4/ztpv4", "dhcpv6/ztpv6", "netboot", "interfaces"})
 	// "re-encoding returns normally": an encoder that serialises a sub-value twice per nesting level does not
